@@ -64,7 +64,7 @@ func runPipelineY(c *Ctx, cs *spec.Case, race, yields bool) (*pipelineResult, st
 		return pr, ""
 	}
 	if ue := b.An.UserErrors(); len(ue) > 0 {
-		pr.Discard, pr.Detail = "harness-user-package-error", fmt.Sprint(ue)
+		pr.Discard, pr.Detail = "band-compile-error(C04)", fmt.Sprint(ue)
 		return pr, ""
 	}
 	if be := b.An.BandErrors(); len(be) > 0 {
